@@ -685,7 +685,7 @@ fn evidence(
             "components": {
                 "real": ["ruint (rebuilt from /repo working tree): encoders, decoders, bytes.rs, string.rs, base_convert.rs, generators", "borsh", "parity-scale-codec", "alloy-rlp", "fastrlp 0.3/0.4", "rlp 0.5", "der", "ethereum_ssz", "serde_json", "bincode", "bytes", "postgres-types", "bytemuck", "num-bigint", "primitive-types", "ark-ff 0.3/0.4", "arbitrary", "quickcheck", "proptest", "rand 0.8/0.9 distributions", "num-traits", "num-integer", "subtle", "zeroize"],
                 "stub": ["WriteSeam/ReadSeam (io::Write/io::Read, chunking, EINTR, hard error, EOF)", "SimInput (SCALE Input: remaining_len modes, alloc budget)", "SimDerWriter (der::Writer)", "SimSerializer/SimDeserializer (serde data model)", "SimRng08/SimRng09 (RngCore)", "medium (byte log + fault applicator)", "digit iterator"],
-                "absent": ["PostgreSQL server", "network", "disk", "OS entropy (Uint::random()/randomize() hard-wire thread_rng and are not run)"]
+                "absent": ["PostgreSQL server", "network", "disk", "OS entropy (Uint::random()/randomize() hard-wire thread_rng and are not run)", "diesel / sqlx / pyo3 / bn-rs integrations (need a database backend, a Python interpreter or a JavaScript host; thin wrappers over try_from_{be,le}_slice / from_str_radix, which are run directly)"]
             },
             "violating_runs": total.violating_runs,
             "known_findings_matched": known.iter().map(|(id, (f, p))| json!({"id": id, "what": f.what, "replay": p})).collect::<Vec<_>>(),
